@@ -43,13 +43,18 @@ pub open spec fn pruned_slot(a: ModuleSlot, b: ModuleSlot) -> bool {
     }
 }
 
-/// the edges a code-only build follows: redirects, and the resolved code targets of the
+/// the source map a JS module names (loaded by every build, also code-only ones)
+pub open spec fn smap_target(x: JsModule) -> Option<Url> {
+    match x.maybe_source_map_dependency { Some(d) => res_specifier(d.dependency), None => None }
+}
+/// the edges a code-only build follows: redirects, the source map of a JS module, and the resolved code targets of the
 /// dependencies of JS / Wasm modules (static and dynamic alike)
 pub open spec fn code_edge(g: ModuleGraph, a: Url, b: Url) -> bool {
     match redirect_of(g, a) {
         Some(t) => t == b,
         None => match slot_at(g, a) {
-            Some(ModuleSlot::Module(Module::Js(x))) => exists|i: int| 0 <= i < im_vals(x.dependencies).len() && res_specifier((#[trigger] im_vals(x.dependencies)[i]).maybe_code) == Some(b),
+            Some(ModuleSlot::Module(Module::Js(x))) => (exists|i: int| 0 <= i < im_vals(x.dependencies).len() && res_specifier((#[trigger] im_vals(x.dependencies)[i]).maybe_code) == Some(b))
+                || smap_target(x) == Some(b),
             Some(ModuleSlot::Module(Module::Wasm(x))) => exists|i: int| 0 <= i < im_vals(x.dependencies).len() && res_specifier((#[trigger] im_vals(x.dependencies)[i]).maybe_code) == Some(b),
             _ => false,
         },
